@@ -148,6 +148,7 @@ package service
 //@   trace[C06,reads-fixed-prefix] each io.ReadFull satisfies len($arg1) == bytesForKeyFinding && $arg0 == clientReader
 //@   trace[C02,prefix-replayed-in-full] each bytes.NewReader satisfies len($arg0) == bytesForKeyFinding && sameslice($arg0, evarg("io.ReadFull", 1))
 //@   trace[C02,prefix-replayed-once] exactly 1 bytes.NewReader when result.4 == nil
+//@   trace[C02,replayed-prefix-is-a-buffer-of-its-own] each bytes.NewReader satisfies private($arg0)
 //@   trace[C02,stream-reassembled-once] exactly 1 io.MultiReader when result.4 == nil
 //@   trace[C01,mark-used-only-on-success] never service.(*cipherList).MarkUsedByClientIP when result.4 != nil
 
@@ -688,6 +689,9 @@ package service
 //@   must-recover
 //@   requires validPacketHandler(h) && validNatmap(nm) && clientConn != nil
 //@   requires len(cipherBuf) == serverUDPBufferSize && len(textBuf) == serverUDPBufferSize && cipherBuf.$arr != textBuf.$arr
+//@   requires private(cipherBuf) && private(textBuf)
+//@   trace[C03,C19,datagrams-are-decrypted-in-buffers-private-to-this-receive-loop] each shadowsocks.Unpack satisfies private($arg1) && ($arg0 != nil ==> private($arg0))
+//@   trace[C03,C19,trial-decryption-in-buffers-private-to-this-receive-loop] each service.findAccessKeyUDP satisfies private($arg1) && private($arg2)
 //@   requires 0 <= clientProxyBytes && clientProxyBytes <= len(cipherBuf) && targetConn == nil && proxyTargetBytes == 0
 //@   requires err == nil ==> clientAddr != nil && typeis(clientAddr, "*net.UDPAddr") && as(clientAddr, "*net.UDPAddr") != nil
 //@   ensures targetConn != nil ==> validNatconn(targetConn)
